@@ -108,6 +108,16 @@ UNIT_PRELUDE = [
             ["s", "x3"], ["term", [[["i", 3], 1], [U("m"), 1]]])},
     {"e": M(["g", "quantity.predefined:Length"], "new_unit", ["s", "x7"],
             ["s", "x7"], ["term", [[["i", 7], 1], [U("m"), 1]]])},
+    # multiples of units of a type without reference unit: elements that
+    # carry a scale but are convertible only within their own base unit
+    {"e": M(["g", "quantity.predefined:Temperature"], "new_unit",
+            ["s", "mK"], ["s", "Millikelvin"],
+            OP("*", ["D", "0.001"], U("K")))},
+    {"e": M(["g", "quantity.predefined:Temperature"], "new_unit",
+            ["s", "kK"], ["s", "Kilokelvin"], OP("*", ["i", 1000], U("K")))},
+    {"e": M(["g", "quantity.predefined:Temperature"], "new_unit",
+            ["s", "m°C"], ["s", "Millicelsius"],
+            OP("*", ["D", "0.001"], U("°C")))},
 ]
 
 
@@ -118,6 +128,9 @@ def unit_dens():
     den["oct"] = den["B"]
     den["x3"] = (F(3), den["m"][1])
     den["x7"] = (F(7), den["m"][1])
+    den["mK"] = (F(1, 1000), den["K"][1])
+    den["kK"] = (F(1000), den["K"][1])
+    den["m°C"] = (F(1, 1000), den["°C"][1])
     return den
 
 
